@@ -17,11 +17,12 @@ Reset ==
 
 EventStep(ev) ==
   \/ ev.e = "reset" /\ Reset
-  \/ ev.e = "append" /\ AppendEv(ev.s, ev.id, ev.tok, ev.gt)
-  \/ ev.e = "read" /\ ev.ok /\ ReadEv(ev.s, ev.from, ev.limit, ev.evs, ev.next)
-  \/ ev.e = "stream" /\ ev.ok /\ Stream(ev.s, ev.from, ev.evs)
-  \/ ev.e = "save" /\ Save(ev.s, ev.sub, ev.tok)
-  \/ ev.e = "load" /\ Load(ev.s, ev.sub, ev.tok)
+  \* mok: the store's metrics hook (SQLite) was called exactly once for the operation, with its kind, error flag and count
+  \/ ev.e = "append" /\ ev.mok /\ AppendEv(ev.s, ev.id, ev.tok, ev.gt)
+  \/ ev.e = "read" /\ ev.ok /\ ev.mok /\ ReadEv(ev.s, ev.from, ev.limit, ev.evs, ev.next)
+  \/ ev.e = "stream" /\ ev.ok /\ ev.mok /\ Stream(ev.s, ev.from, ev.evs)
+  \/ ev.e = "save" /\ ev.mok /\ Save(ev.s, ev.sub, ev.tok)
+  \/ ev.e = "load" /\ ev.mok /\ Load(ev.s, ev.sub, ev.tok)
 
 TraceInit == LogInit /\ l = 1 /\ TLCSet(1, 1)
 TraceNext == l <= Len(Trace) /\ EventStep(Trace[l]) /\ l' = l + 1
